@@ -8,6 +8,9 @@ def run(rep, kf, tier, seed):
     run_models(rep, kf, tier, seed, "C14", config={"literal_enums": True}, tag="+literal_enums")
     # parser side: member table of an enum with ANY number of values (inductive contract)
     from props.common import run_bounded, discharge_parallel
+    import contracts.model_plumbing as cmp_
+    from pyvc import engine_b as _eb
+    _eb.discharge(rep, kf, [cmp_.const_build_contract()], "C14", tier, seed)
     import contracts.enum_values as cev
     discharge_parallel(rep, kf, [cev.values_contract()], "C14", tier, seed)
     run_bounded(rep, kf, "C14", ["enum_values", "enum_default"], tier)
